@@ -344,6 +344,9 @@ class Interp:
             self._call_func(FuncVal(init, init.node, init.module, None, init.cls), [obj] + list(args), kwargs)
         elif args or kwargs:
             ext = prog.all_external_bases(ci)
+            if any(x.split(".")[-1].endswith(("Error", "Exception", "Warning")) for x in ext):
+                obj.attrs["args"] = tuple(args)  # exception classes derived from a built-in exception: BaseException.__init__(*args)
+                return obj
             raise Unsupported(f"constructor of {ci.name} with external base {ext}")
         return obj
 
